@@ -22,8 +22,8 @@ type Val struct {
 }
 
 type PathElem struct {
-	Field int       // field index when Idx == nil
-	Idx   *smt.Term // array index
+	Field int        // field index when Idx == nil
+	Idx   *smt.Term  // array index
 	Typ   types.Type // type of the container at this step
 }
 
